@@ -251,7 +251,7 @@ def good : Item where
     .clone (.var 10) (.var 5),
     .callRt [.var 11, .var 10, .var 4],
     .offset 6 (.var 1) 8,
-    .copy (.var 6) (.var 11),
+    .copy (.var 6) (.var 11) 8,
     .nop]
 
 /-- the same with the clone skipped: the constant's address is used as a place -/
